@@ -94,6 +94,12 @@ impl LocationListTable {
     ) -> Result<LocationListOffsets> {
         let address_size = encoding.address_size;
         let mut offsets = Vec::new();
+        // The value of the first word of a base address selection entry.
+        // A location that begins with this value would be read back as a base address.
+        let marker = match address_size {
+            1..=8 => !0u64 >> (64 - u32::from(address_size) * 8),
+            _ => return Err(Error::UnsupportedWordSize(address_size)),
+        };
         for loc_list in self.locations.iter() {
             let mut have_base_address = have_unit_base_address;
             offsets.push(w.offset());
@@ -103,7 +109,6 @@ impl LocationListTable {
                 // than required, but still seems reasonable.
                 match *loc {
                     Location::BaseAddress { address } => {
-                        let marker = !0 >> (64 - address_size * 8);
                         w.write_udata(marker, address_size)?;
                         w.write_address(address, address_size)?;
                         have_base_address = true;
@@ -119,6 +124,9 @@ impl LocationListTable {
                         if !have_base_address {
                             return Err(Error::MissingBaseAddress);
                         }
+                        if begin == marker {
+                            return Err(Error::InvalidRange);
+                        }
                         w.write_udata(begin, address_size)?;
                         w.write_udata(end, address_size)?;
                         write_expression(&mut w.0, refs, encoding, unit_offsets, data)?;
@@ -133,6 +141,9 @@ impl LocationListTable {
                         }
                         if have_base_address {
                             return Err(Error::UnexpectedBaseAddress);
+                        }
+                        if begin == Address::Constant(marker) {
+                            return Err(Error::InvalidRange);
                         }
                         w.write_address(begin, address_size)?;
                         w.write_address(end, address_size)?;
@@ -155,6 +166,9 @@ impl LocationListTable {
                         }
                         if have_base_address {
                             return Err(Error::UnexpectedBaseAddress);
+                        }
+                        if begin == Address::Constant(marker) {
+                            return Err(Error::InvalidRange);
                         }
                         w.write_address(begin, address_size)?;
                         w.write_address(end, address_size)?;
